@@ -202,7 +202,7 @@ def run_history(acc, E, cfg, hist, it_args):
                 m = None
             if clean and a['minlen'] == 1:
                 # "traced from a maximum": with nothing consumed and no minimal length, the match starts at a maximal cell
-                if m is None and M is not None:
+                if m is None and M is not None and first_step:      # (an old iterator may simply have delivered its k matches)
                     return 'no match although the matrix has positive cells (maximum %r)' % (M,), nmatches
                 if m is not None and (M is None or not close(A[int(m.row)][int(m.col)], M)):
                     return 'first match after a (re)start is traced from cell (%d,%d) with affinity %r, the maximum over the admissible cells is %r' % (
@@ -280,7 +280,7 @@ def universe(tier, seed, shard, nshards):
     idx = 0
     for s1 in sers:
         for s2 in sers:
-            if thorough and len(s1) + len(s2) > 6:
+            if thorough and len(s1) + len(s2) > 7:
                 continue
             idx += 1
             if idx % nshards != shard:
